@@ -39,6 +39,8 @@ def run(ctx):
     for r in sub.results:
         r['rule'] = 'R8'
         ctx.results.append(r)
+    r4_order(ctx)
+    r8_socket(ctx)
     # R9 = what the shared-memory transport takes from the ring it is built on: margin, step and the consumer's order of stores
     # (C01.R3, R8, R9) - a message that was accepted is only intact if the ring keeps it so
     sub = type(ctx)(ctx.prog, ctx.prop, ctx.tier, ctx.depth)
@@ -582,3 +584,54 @@ def r7(ctx):
                   'notification bytes are written to another socket')
         okn = bool(ws) and all(g.uncut_path(ev, lambda a, fb: a.op == '!=' and a.rc == 0 and field_is(a.l, 'needs_sock_for_poll')) is None for ev in ws)
         ctx.check('R7', '%s:only-for-shm' % nm, okn, ws[0] if ws else g, 'only when needs_sock_for_poll', 'notification bytes are written for the socket transport too (they would be read as messages)')
+
+
+def r4_order(ctx):
+    """with a backlog of owed bytes the new event's byte joins the backlog before the backlog is flushed: counted afterwards it is not
+    sent by that flush, and if the flush emptied the backlog POLLOUT is no longer asked for - the byte is never sent"""
+    f = ctx.prog.fn('new_event_notification')
+    incs = [st for st in f.events('STORE') if last_field(st.lhs) == ('qb_ipcs_connection', 'outstanding_notifiers') and
+            (st.d['op'] == '++' or (st.d['op'] == '+=' and cval(unwrap(st.rhs)) == 1))]
+    fl = list(f.calls('resend_event_notifications'))
+    if not incs or not fl:
+        raise AnalysisBroken('new_event_notification: increments=%d flush calls=%d' % (len(incs), len(fl)))
+    late = [(i, c) for i in incs for c in fl if f.may_follow(c, i)]
+    ctx.check('R4', 'owed-byte-counted-before-the-flush', not late, late[0][0] if late else incs[0],
+              'the new event is added to the owed count before the owed bytes are sent',
+              'the owed bytes are flushed before the new event is counted: the flush does not send its byte, and when the flush has brought the count to zero it '
+              'stops asking for POLLOUT - one event stays in the ring with no byte on the way, the client\'s descriptor never becomes readable for it')
+
+
+def r8_socket(ctx):
+    """socket transport: a message that does not fit the receiver's buffer is refused (-EMSGSIZE, nothing taken), never cut to fit and
+    returned as a success"""
+    f = ctx.prog.fn('qb_ipc_us_recv_at_most')
+    recvs = [ev for ev in f.calls('recv')]
+    if not recvs:
+        raise AnalysisBroken('qb_ipc_us_recv_at_most: no recv')
+    lenp = f.params[2]['n']
+    n = 0
+    for rv in recvs:
+        a = unwrap(rv.args[2])
+        if a.get('k') != 'var':
+            continue
+        defs, _entry = f.reaching_defs(a['n'], rv)
+        for d in defs:
+            rhs = d.rhs if d.kind == 'STORE' else d.d.get('init')
+            if rhs is None:
+                continue
+            from_hdr = any(n_.get('k') == 'mem' and n_.get('f') == 'size' for n_ in walk(rhs))
+            if not from_hdr:
+                continue
+            n += 1
+            cut = any(n_.get('k') == 'var' and n_['n'] == lenp for n_ in walk(rhs))
+
+            def fits(at, fb):
+                return at.op in ('<=', '<') and any(n_.get('k') == 'mem' and n_.get('f') == 'size' for n_ in walk(at.l)) and mentions_var(at.r, lenp)
+            unguarded = f.uncut_path(d, fits) is not None
+            ctx.check('R8', 'socket:too-long-for-the-buffer-is-refused', not cut and not unguarded, d,
+                      'the length received is the header\'s own, taken only where it was seen to fit the buffer',
+                      'the length received is %s%s: a message longer than the caller\'s buffer is cut to fit and returned as a success - the rest of the datagram is gone, '
+                      'the caller has a torn message and cannot get the whole one any more' % (estr(rhs), '' if cut else ' without a test that it fits'))
+    if n == 0:
+        raise AnalysisBroken('qb_ipc_us_recv_at_most: no receive length taken from the message header')
